@@ -4,6 +4,7 @@ CONSTANTS
     CacheSound = FALSE
     MaxAlter = 1
     TamperFields = {"resign", "prev", "epoch", "avk", "params", "msgEpoch", "nextAvk", "nextParams", "signedMsg", "sig", "kind", "genSig"}
+    MsgModes = {"k", "d", "r"}
     ForgeEpochs = {1, 2, 3, 4, 5}
     Forge2Pars = {"q"}
     ForgeKeys = {"H2", "H3", "H4", "H5", "A"}
